@@ -189,6 +189,15 @@ func concretise(g *genCase, k int, opt options) (*conCase, error) {
 		vm = ms[k%len(ms)]
 	}
 	c.Origin = fmt.Sprintf("table:%s/%s/k=%d/%s", g.Sp, g.Fam, k, vm.name)
+	if k > 0 && (g.Kind == "cid" || g.Kind == "rect-cid") {
+		// the second concretisation also clones every file and re-maps the clone, and
+		// gives the parents of a chain the name of a predefined CMap
+		c.CloneStep = true
+		if len(g.Layers) > 1 {
+			c.ParentName = []string{"Identity-H", "UniJIS-UCS2-H", "90ms-RKSJ-H"}[k%3]
+			c.Origin += "/parent=" + c.ParentName
+		}
+	}
 
 	for _, r := range g.CSR {
 		c.CSR = append(c.CSR, rng{mapBytes(r.Lo, pos), mapBytes(r.Hi, pos)})
